@@ -128,6 +128,14 @@ CLAIMED = {
         'references, with a shutdown at a random point, are accepted by TLC only if some placement of the unlogged linearization points explains every logged answer, all invariants evaluated at every step.',
         'In-process transport (pickling on every call, handlers on a thread pool); 2 clients x 4-5 calls exhaustive; object kinds box/counter/list/iterator; a stopped server is outside the statement.',
         '5/C14'),
+    'C08': (
+        'TLA+ reference interpreter Operators.tla (on TreeOps.tla get / copy-on-write set) whose laws TLC checks over every program of the bounded universe; every enumerated program built with the real TreeTransform and run on the real runner, outputs / sinks / closing / caller data / build errors compared',
+        'TLC enumerates every chain of up to 2 (thorough: 3) operator instances from a universe of ~55 select / apply / assign / filter / sink / batch instances covering single, tuple, nested-path, '
+        'dict/kwargs, SELF, SKIP and literal keys, evaluates each on 4 fixed streams (0, 1, 2, 4 records) and checks the interpreter laws (filter = ordered sub-sequence, assign changes exactly the named keys, '
+        'sinks see each reaching record once, operators compose). Every program (plus sampled programs of length 3-4) is executed on the real code: output stream, sink contents, sinks closed exactly once, '
+        'caller records deep-equal and identical afterwards, invalid key combinations rejected at build time.',
+        'Records are dicts {a, b, n:{x}} of small ints; a fixed function library; batch() only as the last operator.',
+        '5/C08'),
 }
 
 PENDING = {}
